@@ -3,6 +3,7 @@
 package main
 
 import (
+	"encoding/json"
 	"fmt"
 	"iter"
 	"math"
@@ -14,6 +15,8 @@ import (
 	"github.com/NethermindEth/juno/core/felt"
 	"github.com/NethermindEth/juno/core/pending"
 	rpcv10 "github.com/NethermindEth/juno/rpc/v10"
+	rpcv8 "github.com/NethermindEth/juno/rpc/v8"
+	rpcv9 "github.com/NethermindEth/juno/rpc/v9"
 	junosync "github.com/NethermindEth/juno/sync"
 	"github.com/NethermindEth/juno/sync/preconfirmed"
 	"github.com/NethermindEth/juno/utils/log"
@@ -164,6 +167,10 @@ func errClass(err error) string {
 	switch {
 	case strings.Contains(s, "key not found"), strings.Contains(s, "Key not found"):
 		return "notfound"
+	case strings.Contains(s, "pruned"), strings.Contains(s, "retention floor"):
+		return "pruned"
+	case strings.Contains(s, "continuation token is invalid"):
+		return "badtoken"
 	case strings.Contains(s, "not within range"):
 		return "range"
 	case strings.Contains(s, "bounds mismatch"):
@@ -186,7 +193,9 @@ type Q struct {
 	FromTag string `json:"from_tag,omitempty"`
 	ToTag   string `json:"to_tag,omitempty"`
 	Rpc     bool   `json:"rpc,omitempty"`
+	Api     string `json:"api,omitempty"` // with Rpc: "" = v10, "v9", "v8" (one address at most; v8: no pre-confirmed blocks)
 	Pre     []Plan `json:"pre,omitempty"`
+	Tok     string `json:"token,omitempty"` // start from this (forged) continuation token instead of the first page
 }
 
 const sentinel = math.MaxUint64
@@ -199,6 +208,9 @@ func (q Q) bounds(head int) (from, to uint64) {
 		from = uint64(head)
 	case "pre_confirmed":
 		from = sentinel
+		if q.Api == "v8" {
+			from = uint64(head) + 1 // v8 `pending`
+		}
 	default:
 		from = uint64(q.From)
 	}
@@ -207,6 +219,9 @@ func (q Q) bounds(head int) (from, to uint64) {
 		to = uint64(head)
 	case "pre_confirmed":
 		to = sentinel
+		if q.Api == "v8" {
+			to = uint64(head) + 1
+		}
 	case "hash":
 		to = uint64(q.To)
 	default:
@@ -223,6 +238,11 @@ func (q Q) bounds(head int) (from, to uint64) {
 func (q Q) specRange(head int) (lo, hi int, empty bool) {
 	from, to := q.bounds(head)
 	top := head + len(q.Pre)
+	if q.Tok != "" {
+		var b, p uint64
+		fmt.Sscanf(q.Tok, "%d-%d", &b, &p)
+		from = b
+	}
 	if from == sentinel {
 		if len(q.Pre) == 0 {
 			return 0, 0, true
@@ -314,37 +334,17 @@ func realPage(n *Node, w *World, q Q, pre []*pending.PreConfirmed, tok string) (
 		err, panicked, _ := lib.Try(func() error {
 			addrs, keys := q.F.real()
 			if q.Rpc {
-				h := rpcv10.New(n.BC, &fakeSync{blocks: pre}, nil, log.NewNopZapLogger()).WithFilterLimit(uint(q.Limit))
-				fromID, err := w.blockID(q.FromTag, q.From)
+				evs, next, err := w.rpcEvents(n, q, pre, tok, addrs, keys)
 				if err != nil {
 					return err
 				}
-				toID, err := w.blockID(q.ToTag, q.To)
-				if err != nil {
-					return err
-				}
-				args := &rpcv10.EventArgs{
-					EventFilter:       rpcv10.EventFilter{FromBlock: fromID, ToBlock: toID, Address: rpcv10.AddressList(addrs), Keys: keys},
-					ResultPageRequest: rpcv10.ResultPageRequest{ContinuationToken: tok, ChunkSize: uint64(q.Chunk)},
-				}
-				chunk, rerr := h.Events(args)
-				if rerr != nil {
-					return fmt.Errorf("rpc error %d %s %v", rerr.Code, rerr.Message, rerr.Data)
-				}
-				for _, ee := range chunk.Events {
-					em := Em{int(ee.BlockNumber), int(ee.TransactionIndex), int(ee.EventIndex)}
-					pg.Ems = append(pg.Ems, em)
-					var ev *core.Event
-					if ee.Event != nil {
-						ev = (*core.Event)(ee.Event)
-					}
-					fe := blockchain.FilteredEvent{Event: ev, BlockNumber: ee.BlockNumber, BlockHash: ee.BlockHash,
-						TransactionHash: ee.TransactionHash, TransactionIndex: ee.TransactionIndex, EventIndex: ee.EventIndex}
+				for _, fe := range evs {
+					pg.Ems = append(pg.Ems, Em{int(fe.BlockNumber), int(fe.TransactionIndex), int(fe.EventIndex)})
 					if bad := w.checkTag(fe, pre); bad != "" && pg.Bad == "" {
 						pg.Bad = bad
 					}
 				}
-				pg.Tok = chunk.ContinuationToken
+				pg.Tok = next
 				return nil
 			}
 			fl, err := n.BC.EventFilter(addrs, keys, func() (blockchain.PreConfirmedReader, error) {
@@ -402,4 +402,166 @@ func realPage(n *Node, w *World, q Q, pre []*pending.PreConfirmed, tok string) (
 		pg.Err = "hang"
 	}
 	return pg
+}
+
+// rpcEvents asks starknet_getEvents of the chosen API version and converts the answer to
+// FilteredEvents. v8 / v9 do not return transaction and event indexes: they are recovered from the
+// transaction hash and the event's data (the generator writes the event index into data[1]).
+func (w *World) rpcEvents(n *Node, q Q, pre []*pending.PreConfirmed, tok string, addrs []felt.Address, keys [][]felt.Felt) ([]blockchain.FilteredEvent, string, error) {
+	rpcErr := func(code int, msg string, data any) error { return fmt.Errorf("rpc error %d %s %v", code, msg, data) }
+	locate := func(block uint64, hasNumber bool, txHash *felt.Felt, ev *core.Event) (uint64, uint, uint) {
+		var blk *core.Block
+		if hasNumber && int(block) < len(w.Bundles) {
+			blk = w.Bundles[block].Block
+		} else {
+			for i, p := range pre {
+				if !hasNumber || int(block) == len(w.Bundles)+i {
+					for _, rc := range p.Block.Receipts {
+						if rc.TransactionHash.Equal(txHash) {
+							blk, block = p.Block, uint64(len(w.Bundles)+i)
+						}
+					}
+				}
+			}
+		}
+		if blk == nil {
+			return block, 9999, 9999
+		}
+		for t, rc := range blk.Receipts {
+			if rc.TransactionHash.Equal(txHash) {
+				if ev != nil && len(ev.Data) == 2 {
+					return block, uint(t), uint(ev.Data[1].Uint64())
+				}
+				return block, uint(t), 9999
+			}
+		}
+		return block, 9999, 9999
+	}
+	switch q.Api {
+	case "v9":
+		h := rpcv9.New(n.BC, &fakeSync{blocks: pre}, nil, log.NewNopZapLogger()).WithFilterLimit(uint(q.Limit))
+		id := func(tag string, num int) (*rpcv9.BlockID, error) {
+			var b rpcv9.BlockID
+			switch tag {
+			case "latest":
+				b = rpcv9.BlockIDLatest()
+			case "pre_confirmed":
+				b = rpcv9.BlockIDPreConfirmed()
+			case "hash":
+				if num >= len(w.Bundles) {
+					return nil, fmt.Errorf("harness: no block %d", num)
+				}
+				b = rpcv9.BlockIDFromHash(w.Bundles[num].Block.Hash)
+			default:
+				b = rpcv9.BlockIDFromNumber(uint64(num))
+			}
+			return &b, nil
+		}
+		fromID, err := id(q.FromTag, q.From)
+		if err != nil {
+			return nil, "", err
+		}
+		toID, err := id(q.ToTag, q.To)
+		if err != nil {
+			return nil, "", err
+		}
+		var addr *felt.Address
+		if len(addrs) > 0 {
+			addr = &addrs[0]
+		}
+		chunk, rerr := h.Events(rpcv9.EventArgs{
+			EventFilter:       rpcv9.EventFilter{FromBlock: fromID, ToBlock: toID, Address: addr, Keys: keys},
+			ResultPageRequest: rpcv9.ResultPageRequest{ContinuationToken: tok, ChunkSize: uint64(q.Chunk)},
+		})
+		if rerr != nil {
+			return nil, "", rpcErr(rerr.Code, rerr.Message, rerr.Data)
+		}
+		var out []blockchain.FilteredEvent
+		for _, ee := range chunk.Events {
+			ev := (*core.Event)(ee.Event)
+			b, t, i := locate(ee.BlockNumber, true, ee.TransactionHash, ev)
+			out = append(out, blockchain.FilteredEvent{Event: ev, BlockNumber: b, BlockHash: ee.BlockHash,
+				TransactionHash: ee.TransactionHash, TransactionIndex: t, EventIndex: i})
+		}
+		return out, chunk.ContinuationToken, nil
+	case "v8":
+		h := rpcv8.New(n.BC, &fakeSync{}, nil, log.NewNopZapLogger()).WithFilterLimit(uint(q.Limit))
+		id := func(tag string, num int) (*rpcv8.BlockID, error) {
+			var b rpcv8.BlockID
+			switch tag {
+			case "latest":
+				if err := json.Unmarshal([]byte(`"latest"`), &b); err != nil {
+					return nil, err
+				}
+			case "pre_confirmed":
+				b = rpcv8.BlockIDPending()
+			case "hash":
+				if num >= len(w.Bundles) {
+					return nil, fmt.Errorf("harness: no block %d", num)
+				}
+				b = rpcv8.BlockIDFromHash(w.Bundles[num].Block.Hash)
+			default:
+				b = rpcv8.BlockIDFromNumber(uint64(num))
+			}
+			return &b, nil
+		}
+		fromID, err := id(q.FromTag, q.From)
+		if err != nil {
+			return nil, "", err
+		}
+		toID, err := id(q.ToTag, q.To)
+		if err != nil {
+			return nil, "", err
+		}
+		var addr *felt.Felt
+		if len(addrs) > 0 {
+			a := felt.Felt(addrs[0])
+			addr = &a
+		}
+		chunk, rerr := h.Events(rpcv8.EventsArg{
+			EventFilter:       rpcv8.EventFilter{FromBlock: fromID, ToBlock: toID, Address: addr, Keys: keys},
+			ResultPageRequest: rpcv8.ResultPageRequest{ContinuationToken: tok, ChunkSize: uint64(q.Chunk)},
+		})
+		if rerr != nil {
+			return nil, "", rpcErr(rerr.Code, rerr.Message, rerr.Data)
+		}
+		var out []blockchain.FilteredEvent
+		for _, ee := range chunk.Events {
+			ev := &core.Event{From: ee.Event.From, Keys: ee.Event.Keys, Data: ee.Event.Data}
+			var bn uint64
+			if ee.BlockNumber != nil {
+				bn = *ee.BlockNumber
+			}
+			b, t, i := locate(bn, ee.BlockNumber != nil, ee.TransactionHash, ev)
+			out = append(out, blockchain.FilteredEvent{Event: ev, BlockNumber: b, BlockHash: ee.BlockHash,
+				TransactionHash: ee.TransactionHash, TransactionIndex: t, EventIndex: i})
+		}
+		return out, chunk.ContinuationToken, nil
+	}
+	h := rpcv10.New(n.BC, &fakeSync{blocks: pre}, nil, log.NewNopZapLogger()).WithFilterLimit(uint(q.Limit))
+	fromID, err := w.blockID(q.FromTag, q.From)
+	if err != nil {
+		return nil, "", err
+	}
+	toID, err := w.blockID(q.ToTag, q.To)
+	if err != nil {
+		return nil, "", err
+	}
+	chunk, rerr := h.Events(&rpcv10.EventArgs{
+		EventFilter:       rpcv10.EventFilter{FromBlock: fromID, ToBlock: toID, Address: rpcv10.AddressList(addrs), Keys: keys},
+		ResultPageRequest: rpcv10.ResultPageRequest{ContinuationToken: tok, ChunkSize: uint64(q.Chunk)},
+	})
+	if rerr != nil {
+		return nil, "", rpcErr(rerr.Code, rerr.Message, rerr.Data)
+	}
+	var out []blockchain.FilteredEvent
+	for _, ee := range chunk.Events {
+		var ev *core.Event
+		if ee.Event != nil {
+			ev = (*core.Event)(ee.Event)
+		}
+		out = append(out, blockchain.FilteredEvent{Event: ev, BlockNumber: ee.BlockNumber, BlockHash: ee.BlockHash,
+			TransactionHash: ee.TransactionHash, TransactionIndex: ee.TransactionIndex, EventIndex: ee.EventIndex})
+	}
+	return out, chunk.ContinuationToken, nil
 }
